@@ -171,4 +171,7 @@ def run(repo, tier):
     res.floor('CONV', 3)
     res.floor('NDDATA', 4)
     res.exhaustive_rules = ['DTYPE over every function of the package', 'QTY over every process_quantities call site']
+    from .common import run_unit_last
+    run_unit_last(repo, res)
+    res.floor('UNIT-LAST', 30)
     return res
